@@ -12,33 +12,33 @@ import (
 // Tournament world: real tables that follow the regulator's instructions, as the repo's own tests do.
 
 type World struct {
-	prop         string
-	props        map[string]bool
-	r            reg.Regulator
-	max          int
-	min          int
-	tables       map[string][]string
-	order        []string
-	where        map[string]string
-	alive        map[string]bool
-	nAlive       int
-	nextT        int
-	nextP        int
-	status       int
-	trace        []string
-	rep          *Report
-	seed         int64
-	idx          int
-	failed       bool
-	initialAlloc bool
+	prop          string
+	props         map[string]bool
+	r             reg.Regulator
+	max           int
+	min           int
+	tables        map[string][]string
+	order         []string
+	where         map[string]string
+	alive         map[string]bool
+	nAlive        int
+	nextT         int
+	nextP         int
+	status        int
+	trace         []string
+	rep           *Report
+	seed          int64
+	idx           int
+	failed        bool
+	initialAlloc  bool
 	delayReleases bool
-	regTotal     int // registered so far (alive or not)
-	roster       []string
-	pending      []pendingRelease // releases a table has been told to make but has not delivered yet
-	transit      map[string]bool  // players of pending releases
-	dead         []string         // ids of tables that were broken (a late report may still arrive)
-	busted       []string         // eliminated players (may re-enter under the same id)
-	rng          *rand.Rand
+	regTotal      int // registered so far (alive or not)
+	roster        []string
+	pending       []pendingRelease // releases a table has been told to make but has not delivered yet
+	transit       map[string]bool  // players of pending releases
+	dead          []string         // ids of tables that were broken (a late report may still arrive)
+	busted        []string         // eliminated players (may re-enter under the same id)
+	rng           *rand.Rand
 }
 
 type pendingRelease struct {
